@@ -21,7 +21,7 @@ def run(ctx):
     narrow.run(ctx, fx, fx.files() if ctx.tier == 'thorough' else FILES)
     ctx.floor('R-NARROWCHECK.casts', 8)
     # block base and in-block delta are both refused when they do not fit their configured width
-    narrow.packed_value_checked(ctx, fx, "blob_store::sorted_uint_vec::SortedUintVecBuilder::compress_values",
+    narrow.packed_value_checked(ctx, fx, "blob_store::sorted_uint_vec::SortedUintVecBuilder",
                                 r"::store_(sample|delta)_static$")
     ctx.floor('R-WIDTHCHECK.sites', 2)
     # get2(i): the neighbour is located from i + 1, not from element i's block
